@@ -299,7 +299,7 @@ fn gen_case(rng: &mut Rng, api: Api, size: usize, allow_viol: bool) -> Case {
         }
     }
     // batch: ids from 100 upward (gaps), u from 1000 upward; markers 1000+i
-    let shuffled = rng.chance(2, 5);
+    let shuffled = !null_ids && size > 1 && rng.chance(2, 5);
     let mut ids: Vec<i64> = vec![];
     let mut next = 100i64;
     for _ in 0..size {
@@ -364,7 +364,7 @@ fn gen_case(rng: &mut Rng, api: Api, size: usize, allow_viol: bool) -> Case {
         // fast_load.rs: "FastLoader operates in auto-commit mode ... For transactional bulk loads, use standard INSERT"
         txn = Txn::Commit;
     }
-    Case { tr, api, wal: rng.chance(3, 10), txn, seeds, pre_delete, pre_update, batch, viol, post_insert, post_update, post_delete, reopen: rng.chance(1, 3), collist, wide, nulls, shuffled, null_ids }
+    Case { tr, api, wal: size <= 60 && rng.chance(2, 5), txn, seeds, pre_delete, pre_update, batch, viol, post_insert, post_update, post_delete, reopen: rng.chance(1, 3), collist, wide, nulls, shuffled, null_ids }
 }
 
 /// what one twin looks like at one point
@@ -908,7 +908,7 @@ fn run_case(scratch: &Scratch, c: &Case, tag: &str) -> CaseOut {
 }
 
 /// structural shrink: smallest case (by a fixed list of simplifications) for which `obs` still differs
-fn shrink_case(scratch: &Scratch, tag: &str, c: &Case, obs: &str, budget: &mut u32) -> Case {
+fn shrink_case(scratch: &Scratch, tag: &str, c: &Case, obs: &str, budget: &mut u32, deadline: std::time::Instant, cut_short: &mut bool) -> Case {
     let mut cur = c.clone();
     let mut memo: HashMap<u64, bool> = HashMap::new();
     let mut fails = |cand: &Case, budget: &mut u32| -> bool {
@@ -916,7 +916,8 @@ fn shrink_case(scratch: &Scratch, tag: &str, c: &Case, obs: &str, budget: &mut u
         if let Some(r) = memo.get(&h) {
             return *r;
         }
-        if *budget == 0 {
+        if *budget == 0 || std::time::Instant::now() > deadline {
+            *cut_short = true;
             return false;
         }
         *budget -= 1;
@@ -925,18 +926,46 @@ fn shrink_case(scratch: &Scratch, tag: &str, c: &Case, obs: &str, budget: &mut u
         memo.insert(h, f);
         f
     };
+    // whatever happens after the observation is decided cannot matter
+    let late = obs.contains('@') || obs.starts_with("dup_rejected") || obs.starts_with("post_dml_result") || obs == "reopen";
+    if !late {
+        cur.post_insert.clear();
+        cur.post_update.clear();
+        cur.post_delete.clear();
+        cur.reopen = false;
+    } else if obs.ends_with("@after_dml") || obs.starts_with("post_dml_result") {
+        cur.reopen = false;
+    }
     // batch size (violating batches keep their rows)
     if cur.viol.is_none() {
         let mut sizes: Vec<usize> = vec![1, 2, 8, 64, 512];
         sizes.retain(|s| *s < cur.batch.len());
-        for s in sizes {
-            let mut cand = cur.clone();
+        let cut = |c: &Case, s: usize| -> Case {
+            let mut cand = c.clone();
             cand.batch.truncate(s);
             cand.post_update.retain(|m| *m < 1000 + s as i64);
             cand.post_delete.retain(|m| *m < 1000 + s as i64);
+            cand
+        };
+        let mut lo = 0usize; // largest size known (assumed) not to fail
+        for s in sizes {
+            let cand = cut(&cur, s);
             if fails(&cand, budget) {
                 cur = cand;
                 break;
+            }
+            lo = s;
+        }
+        // refine between the last passing and the first failing prefix length
+        let mut hi = cur.batch.len();
+        while hi > lo + 1 && hi <= 600 {
+            let mid = (lo + hi) / 2;
+            let cand = cut(&cur, mid);
+            if fails(&cand, budget) {
+                cur = cand;
+                hi = mid;
+            } else {
+                lo = mid;
             }
         }
     } else if cur.batch.len() > 2 {
@@ -968,6 +997,44 @@ fn shrink_case(scratch: &Scratch, tag: &str, c: &Case, obs: &str, budget: &mut u
             }
         }};
     }
+    // big jumps first: all context at once, then all traits the observation does not name
+    let obvious = |c: &mut Case| {
+        let keep_pk = obs.contains(":id");
+        let keep_u = obs.contains(":u");
+        let keep_s = obs.contains(":s");
+        c.tr.pk &= keep_pk;
+        c.tr.unique &= keep_u;
+        c.tr.secidx &= keep_s;
+        c.tr.defaults = false;
+        c.tr.notnull &= matches!(c.viol, Some(ViolKind::NullNotNull));
+        if matches!(c.viol, Some(ViolKind::DupPkInBatch) | Some(ViolKind::DupPkExisting)) {
+            c.tr.pk = true;
+        }
+        if matches!(c.viol, Some(ViolKind::DupUniqueInBatch) | Some(ViolKind::DupUniqueExisting)) {
+            c.tr.unique = true;
+        }
+    };
+    let no_context = |c: &mut Case| {
+        c.post_insert.clear();
+        c.post_update.clear();
+        c.post_delete.clear();
+        c.pre_delete.clear();
+        c.pre_update.clear();
+        if !matches!(c.viol, Some(ViolKind::DupPkExisting) | Some(ViolKind::DupUniqueExisting)) {
+            c.seeds.clear();
+        } else {
+            c.seeds.truncate(1);
+        }
+        c.txn = Txn::None;
+        c.wal = false;
+        c.reopen = false;
+    };
+    try_set!(|c: &mut Case| {
+        no_context(c);
+        obvious(c);
+    });
+    try_set!(|c: &mut Case| no_context(c));
+    try_set!(|c: &mut Case| obvious(c));
     try_set!(|c: &mut Case| {
         c.post_insert.clear();
         c.post_update.clear();
@@ -1002,6 +1069,20 @@ fn shrink_case(scratch: &Scratch, tag: &str, c: &Case, obs: &str, budget: &mut u
     try_set!(|c: &mut Case| c.tr.defaults = false);
     try_set!(|c: &mut Case| c.tr.notnull = false);
     try_set!(|c: &mut Case| {
+        // explicit ids instead of generated ones
+        if c.null_ids {
+            c.null_ids = false;
+            for r in c.seeds.iter_mut().chain(c.batch.iter_mut()).chain(c.post_insert.iter_mut()) {
+                if r[ID].is_null() {
+                    r[ID] = match &r[D] {
+                        V::Int(m) if *m >= 1000 && *m < 8000 => V::Int(*m - 900),
+                        other => other.clone(),
+                    };
+                }
+            }
+        }
+    });
+    try_set!(|c: &mut Case| {
         if !c.null_ids {
             c.tr.autoinc = false;
             for r in c.post_insert.iter_mut() {
@@ -1015,9 +1096,10 @@ fn shrink_case(scratch: &Scratch, tag: &str, c: &Case, obs: &str, budget: &mut u
     try_set!(|c: &mut Case| {
         // no NULLs in nullable columns
         c.nulls = false;
-        for (i, r) in c.seeds.iter_mut().chain(c.batch.iter_mut()).chain(c.post_insert.iter_mut()).enumerate() {
+        for r in c.seeds.iter_mut().chain(c.batch.iter_mut()).chain(c.post_insert.iter_mut()) {
             if r[U].is_null() {
-                r[U] = V::Int(500_000 + i as i64);
+                // the row's marker: unique, and in the same order as the other u values
+                r[U] = r[D].clone();
             }
             if r[S].is_null() {
                 r[S] = V::Int(3);
@@ -1071,6 +1153,22 @@ fn case_json(c: &Case, log_a: &[String]) -> J {
     })
 }
 
+/// an established minimal trigger: (api, observation) fails with exactly these flags
+struct Known {
+    api: &'static str,
+    obs: String,
+    flags: BTreeSet<String>,
+    sig: String,
+}
+
+fn expand_flags(flags: &[String]) -> BTreeSet<String> {
+    let mut s: BTreeSet<String> = flags.iter().cloned().collect();
+    if s.contains("batch>=64") {
+        s.insert("batch>1".into());
+    }
+    s
+}
+
 struct CaseReport {
     dropped: Option<String>,
     notes: Vec<String>,
@@ -1082,12 +1180,15 @@ struct CaseReport {
     ip: u64,
     ipi: u64,
     shrink_runs: u64,
+    unattributed: u64,
+    subsumed: u64,
 }
 
 /// case number `i` of the run (a function of (seed, i) only) on worker `w`
-fn one_case(scratch: &Scratch, w: usize, seed: u64, i: u64, n_big: u64, may_shrink: bool, sig_memo: &std::sync::Mutex<HashMap<String, String>>) -> CaseReport {
+fn one_case(scratch: &Scratch, w: usize, seed: u64, i: u64, n_big: u64, per_shrink_s: f64, hard_deadline: std::time::Instant, registry: &std::sync::Mutex<Vec<Known>>) -> CaseReport {
+    let t_case = std::time::Instant::now();
     let mut rng = Rng::derive(seed.wrapping_mul(1_000_003).wrapping_add(i), 43);
-    let api = APIS[(i % APIS.len() as u64) as usize];
+    let api = APIS[((i + seed) % APIS.len() as u64) as usize];
     let size = if i < n_big {
         5000
     } else {
@@ -1100,31 +1201,53 @@ fn one_case(scratch: &Scratch, w: usize, seed: u64, i: u64, n_big: u64, may_shri
     };
     let c = gen_case(&mut rng, api, size, true);
     let out = run_case(scratch, &c, &format!("w{}c", w));
-    let mut rep = CaseReport { dropped: out.dropped.clone(), notes: out.notes.clone(), api: c.api.name(), size_class: c.size_class(), nontrivial: None, sample: None, viols: vec![], ip: out.index_probes, ipi: out.index_probes_via_index, shrink_runs: 0 };
+    let trace = std::env::var("TV_C43_TRACE").is_ok();
+    if trace {
+        eprintln!("[c43] case {} {} size {} flags {:?}: {:.2}s, diffs {:?}, dropped {:?}", i, c.api.name(), c.batch.len(), c.flags(), t_case.elapsed().as_secs_f64(), out.diffs.iter().map(|d| d.0.clone()).collect::<Vec<_>>(), out.dropped);
+    }
+    let mut rep = CaseReport { dropped: out.dropped.clone(), notes: out.notes.clone(), api: c.api.name(), size_class: c.size_class(), nontrivial: None, sample: None, viols: vec![], ip: out.index_probes, ipi: out.index_probes_via_index, shrink_runs: 0, unattributed: 0, subsumed: 0 };
     if out.dropped.is_some() {
         return rep;
     }
     if out.exercised {
         rep.nontrivial = Some(fnv(format!("{:?}{}{}", c.flags(), c.api.name(), c.size_class()).as_bytes()));
     }
-    if out.diffs.is_empty() && out.exercised && c.batch.len() > 1 {
-        rep.sample = Some(case_json(&c, &out.log_a));
+    if out.exercised && c.batch.len() > 1 && c.batch.len() < 100 {
+        let mut sj = case_json(&c, &out.log_a);
+        sj["observations_that_differ"] = json!(out.diffs.iter().map(|d| d.0.clone()).collect::<Vec<_>>());
+        rep.sample = Some(sj);
     }
     for (obs, detail) in out.diffs.iter().take(6) {
-        let key = format!("{}|{}|{:?}", c.api.name(), obs, c.flags());
-        let known = sig_memo.lock().unwrap().get(&key).cloned();
+        // a case that contains an already established minimal trigger for the same api and
+        // observation is explained by it (the smallest such trigger); otherwise it is shrunk
+        let mine = expand_flags(&c.flags());
+        let known = {
+            let reg = registry.lock().unwrap();
+            reg.iter().filter(|k| k.api == c.api.name() && k.obs == *obs && k.flags.is_subset(&mine)).min_by_key(|k| (k.flags.len(), k.sig.clone())).map(|k| k.sig.clone())
+        };
         let (sig, min_json) = if let Some(s) = known {
+            rep.subsumed += 1;
             (s, J::Null)
         } else {
-            let mut budget: u32 = if may_shrink { 60 } else { 0 };
-            let m = shrink_case(scratch, &format!("w{}s", w), &c, obs, &mut budget);
-            rep.shrink_runs += (60 - budget.min(60)) as u64;
+            let mut budget: u32 = 70;
+            let mut cut_short = false;
+            let deadline = (std::time::Instant::now() + std::time::Duration::from_secs_f64(per_shrink_s)).min(hard_deadline);
+            let m = shrink_case(scratch, &format!("w{}s", w), &c, obs, &mut budget, deadline, &mut cut_short);
+            rep.shrink_runs += (70 - budget.min(70)) as u64;
+            if cut_short {
+                // an incompletely shrunk case would give an unstable signature: not attributed
+                rep.unattributed += 1;
+                continue;
+            }
             let r = run_case(scratch, &m, &format!("w{}m", w));
             let md = r.diffs.iter().find(|(n, _)| n == obs).map(|(_, d)| d.clone());
             let sig = format!("C43/{}/{}/{}", c.api.name(), obs, m.flags().join("+"));
-            sig_memo.lock().unwrap().insert(key, sig.clone());
+            registry.lock().unwrap().push(Known { api: c.api.name(), obs: obs.clone(), flags: expand_flags(&m.flags()), sig: sig.clone() });
             (sig, json!({"case": case_json(&m, &r.log_a), "detail": md}))
         };
+        if trace {
+            eprintln!("[c43]   case {} {} -> {} ({:.2}s so far)", i, obs, sig, t_case.elapsed().as_secs_f64());
+        }
         rep.viols.push((obs.split(':').next().unwrap_or(obs).to_string(), sig, json!({"minimal": min_json, "original_flags": c.flags(), "original_detail": detail, "original_case": case_json(&c, &out.log_a)})));
     }
     rep
@@ -1145,15 +1268,16 @@ pub fn run(a: &Args) -> i32 {
     let quick = ctx.quick();
     let scratch = Scratch::new("c43");
     let max_cases: u64 = if quick { 500 } else { 9000 };
-    let explore_s = if quick { 32.0 } else { 400.0 };
-    let hard_s = if quick { 46.0 } else { 530.0 };
-    let n_big: u64 = if quick { 5 } else { 20 };
+    let explore_s = if quick { 24.0 } else { 400.0 };
+    let hard_s = if quick { 44.0 } else { 520.0 };
+    let per_shrink_s = if quick { 14.0 } else { 60.0 };
+    let n_big: u64 = if quick { 2 } else { 20 };
     let threads = 8usize;
     let mut dropped: BTreeMap<String, u64> = BTreeMap::new();
     let mut notes: BTreeMap<String, u64> = BTreeMap::new();
     let mut by_api: BTreeMap<String, u64> = BTreeMap::new();
     let mut by_size: BTreeMap<String, u64> = BTreeMap::new();
-    let sig_memo: std::sync::Mutex<HashMap<String, String>> = std::sync::Mutex::new(HashMap::new());
+    let registry: std::sync::Mutex<Vec<Known>> = std::sync::Mutex::new(vec![]);
     let (mut ip, mut ipi) = (0u64, 0u64);
     let mut shrink_runs = 0u64;
     let mut case_no = 0usize;
@@ -1164,13 +1288,13 @@ pub fn run(a: &Args) -> i32 {
     std::thread::scope(|s| {
         for w in 0..threads {
             let tx = tx.clone();
-            let (next, scratch, sig_memo) = (&next, &scratch, &sig_memo);
+            let (next, scratch, registry) = (&next, &scratch, &registry);
             s.spawn(move || loop {
                 let i = next.fetch_add(1, std::sync::atomic::Ordering::SeqCst);
                 if i >= max_cases || t0.elapsed().as_secs_f64() > explore_s {
                     break;
                 }
-                let r = catch(|| one_case(scratch, w, seed, i, n_big, t0.elapsed().as_secs_f64() < hard_s, sig_memo)).map_err(|p| format!("harness panic: {}", p));
+                let r = catch(|| one_case(scratch, w, seed, i, n_big, per_shrink_s, t0 + std::time::Duration::from_secs_f64(hard_s), registry)).map_err(|p| format!("harness panic: {}", p));
                 if tx.send(r).is_err() {
                     break;
                 }
@@ -1190,6 +1314,8 @@ pub fn run(a: &Args) -> i32 {
             ip += rep.ip;
             ipi += rep.ipi;
             shrink_runs += rep.shrink_runs;
+            ctx.count("violations_not_attributed_shrink_cut_by_time_budget", rep.unattributed);
+            ctx.count("violations_attributed_to_an_established_minimal_trigger", rep.subsumed);
             for n in &rep.notes {
                 *notes.entry(n.clone()).or_insert(0) += 1;
             }
